@@ -9,7 +9,7 @@ def run(chk):
                 'trash directories possibly an empty skeleton), '
                 'DAYS and --trash-dir; the dry run must leave the projection unchanged and print exactly the set '
                 'EmptyApply removes without --dry-run (paths mapped back to trash slots); a negative answer must leave '
-                'the projection unchanged. non-trivial = printed something or had to refrain')
+                'the projection unchanged; stage unprintable-names: the same under a strict UTF-8 stdout with names that are not valid UTF-8 (state only). non-trivial = printed something or had to refrain')
     chk.assumptions += common.ASSUME + ['the exit status after a negative answer is not constrained by the property']
     common.mc(chk, properties=['NoConsentNoChange'])
     common.gen_tt(chk, 'consent', 'Init_Dates', 'Next_EmptyConsent', 10, 3000,
@@ -21,6 +21,13 @@ def run(chk):
     common.gen_tt(chk, 'consent-tty', 'Init_Dates', 'Next_EmptyConsent', 10, 300 if chk.tier == 'quick' else 4000,
                   strat=lambda g: (g['lab']['opts']['consent'], g['lab']['opts']['dry']), per_stratum=40,
                   opts_fn=lambda g, seed: {'tty': g['lab']['opts']['consent'] != 'auto'})
+    # a strict UTF-8 locale and names that are not valid UTF-8: printing such a name on stdout fails.  Whatever happens to the
+    # output then, a dry run / a negative answer still changes nothing (only the state is judged in this stage)
+    groups = [g for g in stages.generate(chk, 'unprintable-names', 'Init_Dates', 'Next_EmptyConsent', dict(common.C, MaxObj=10, GenLevel=1))
+              if g['lab']['opts']['dry'] or g['lab']['opts']['consent'] == 'no']
+    stages.transition_tests(chk, 'unprintable-names', groups, sample=250 if chk.tier == 'quick' else 3000, per_stratum=20,
+                            strat=lambda g: (g['lab']['opts']['consent'], g['lab']['opts']['dry'], g['lab']['opts']['days']),
+                            opts_fn=lambda g, seed: {'conc': {'nonutf8': True}, 'shim': {'stdio_strict': True}, 'state_only': True})
 
 
 def replay(path):
